@@ -7,8 +7,10 @@ import (
 	"encoding/base64"
 	"encoding/hex"
 	"fmt"
+	"runtime"
 	"strconv"
 	"strings"
+	"sync"
 
 	v3 "github.com/projectcalico/api/pkg/apis/projectcalico/v3"
 
@@ -579,11 +581,126 @@ func genCase(h *rt.H) []string {
 	return append(full, ops[1:]...)
 }
 
+// ---- concurrency clause -------------------------------------------------------------
+//
+// The model (and every theorem) treats the naming functions as PURE functions.  Felix calls them from
+// several goroutines (dataplane goroutine naming chains, calc-graph goroutine computing NFLOG prefixes), so
+// the tie also samples that the real functions behave as pure functions under concurrency: G goroutines call
+// them in a tight loop on their own identity lists and every result must equal the result of the same call
+// made sequentially before the goroutines started.  This is a SAMPLED supporting check (schedules are a
+// runtime matter), not part of the proof.
+
+type namingCall struct {
+	label string
+	f     func() string
+}
+
+func seqResult(c namingCall) string {
+	out, p := call(c.f)
+	if p != "" {
+		return "panic:" + p
+	}
+	return out
+}
+
+// namingCalls builds n calls for one goroutine: over-long identities (hashing branch) mixed with short ones.
+func namingCalls(h *rt.H, n int, g int) []namingCall {
+	var cs []namingCall
+	ipt, nft := iptables.MaxChainNameLength, nftables.MaxChainNameLength
+	for i := 0; i < n; i++ {
+		long := h.Intn(4) != 0
+		l := 1 + h.Intn(12)
+		if long {
+			l = 20 + h.Intn(280)
+		}
+		id := fmt.Sprintf("g%d-%d-", g, i) + randStr(h, l)
+		switch h.Intn(6) {
+		case 0:
+			p, m := rt.Pick(h, []string{"cali-pi-", "cali-tw-", "", "felix-"}), rt.Pick(h, []int{28, 28, 31, 60, 256})
+			cs = append(cs, namingCall{fmt.Sprintf("GetLengthLimitedID(%q,%q,%d)", p, id, m), func() string { return calihash.GetLengthLimitedID(p, id, m) }})
+		case 1:
+			pid := &types.PolicyID{Kind: rt.Pick(h, realKinds), Namespace: rt.Pick(h, []string{"", "default"}), Name: id}
+			nf := h.Bool()
+			cs = append(cs, namingCall{fmt.Sprintf("PolicyChainName(cali-pi-,%s,nft=%v)", pid.ID(), nf), func() string { return rules.PolicyChainName(rules.PolicyInboundPfx, pid, nf) }})
+		case 2:
+			nf := h.Bool()
+			cs = append(cs, namingCall{fmt.Sprintf("ProfileChainName(cali-pro-,%q,nft=%v)", id, nf), func() string { return rules.ProfileChainName(rules.ProfileOutboundPfx, &types.ProfileID{Name: id}, nf) }})
+		case 3:
+			k := rt.Pick(h, []string{"tw", "fw", "th", "fhfw", "arp"})
+			m := rt.Pick(h, []int{ipt, nft})
+			cs = append(cs, namingCall{fmt.Sprintf("EndpointChainName(%s,%q,%d)", epPfx[k], id, m), func() string { return rules.EndpointChainName(epPfx[k], id, m) }})
+		case 4: // the other real caller of GetLengthLimitedID in Felix: NFLOG prefixes (calc-graph goroutine)
+			pid := &types.PolicyID{Kind: v3.KindNetworkPolicy, Namespace: "default", Name: id}
+			idx := h.Intn(100)
+			cs = append(cs, namingCall{fmt.Sprintf("CalculateNFLOGPrefixStr(A,P,I,%d,%s)", idx, pid.ID()), func() string {
+				return rules.CalculateNFLOGPrefixStr(rules.RuleActionAllow, rules.RuleOwnerTypePolicy, rules.RuleDirIngress, idx, pid)
+			}})
+		default:
+			c := ipsets.NewIPVersionConfig(ipsets.IPFamilyV4, "cali", nil, nil)
+			cs = append(cs, namingCall{fmt.Sprintf("NameForMainIPSet(%q)", id), func() string { return c.NameForMainIPSet(id) }})
+		}
+	}
+	return cs
+}
+
+type concFail struct{ sig, label, want, got string }
+
+// concurrent runs the clause once: fixed sizes (goroutines x ids x rounds), all random choices made before
+// the goroutines start, results compared with the sequential ones.
+func concurrent(h *rt.H) {
+	if runtime.GOMAXPROCS(0) < 2 {
+		runtime.GOMAXPROCS(4)
+	}
+	G := 4 + h.Intn(5)
+	const ids, rounds = 64, 500
+	lists := make([][]namingCall, G)
+	want := make([][]string, G)
+	for g := range lists {
+		lists[g] = namingCalls(h, ids, g)
+		want[g] = make([]string, ids)
+		for i, c := range lists[g] {
+			want[g][i] = seqResult(c)
+		}
+	}
+	fails := make([]*concFail, G)
+	var wg sync.WaitGroup
+	start := make(chan struct{})
+	for g := 0; g < G; g++ {
+		wg.Add(1)
+		go func(g int) {
+			defer wg.Done()
+			<-start
+			for r := 0; r < rounds; r++ {
+				for i, c := range lists[g] {
+					got := seqResult(c)
+					if got != want[g][i] {
+						sig := "name-differs-under-concurrency"
+						if strings.HasPrefix(got, "panic:") {
+							sig = "naming-panics-under-concurrency"
+						}
+						fails[g] = &concFail{sig, c.label, want[g][i], got}
+						return
+					}
+				}
+			}
+		}(g)
+	}
+	close(start)
+	wg.Wait()
+	h.Count("concurrent:runs")
+	h.Count(fmt.Sprintf("concurrent:calls=%dx%dx%d", G, ids, rounds))
+	for _, f := range fails {
+		if f != nil {
+			h.OracleFail(f.sig, "a naming function returned a different result (or panicked) when called concurrently from several goroutines than when called alone: it is not a pure function of the identity", map[string]any{"call": f.label, "expected_sequential": f.want, "observed_concurrent": f.got})
+		}
+	}
+}
+
 func main() {
 	h := rt.New()
 	defer h.Close()
 	h.Rule = "case = 4..17 groups of identities: raw GetLengthLimitedID (prefix x max incl. tiny/huge/0/-1, suffix lengths around the limit, leading '_', empty, the suffix that EQUALS another's shortened form), policies (all kinds, ns, names up to 253, ipt+nft), profiles, endpoints (8 prefixes), policy groups, IP sets (ids equal/different around the truncation point); " +
-		"oracle per name: fits limit, same name on a second call, distinct identities of one namespace never share a name, no panic; distinct = distinct op sequence; non-trivial = case contains a shortened (hashed) name"
+		"plus, every 500th case, the concurrency clause (4-8 goroutines x 64 identities x 500 rounds on GetLengthLimitedID / Policy-, Profile-, EndpointChainName / CalculateNFLOGPrefixStr / NameForMainIPSet, results compared with the sequential ones); oracle per name: fits limit, same name on a second call, distinct identities of one namespace never share a name, no panic; distinct = distinct op sequence; non-trivial = case contains a shortened (hashed) name"
 	run := func(ops []string, tag string) {
 		h.Case(tag)
 		s := &state{seen: map[string]map[string]string{}}
@@ -654,7 +771,11 @@ func main() {
 		run(append([]string{"new"}, ops...), "replay")
 		return
 	}
+	// concurrency clause: once at the start and then every 500th case (each run: G x 64 ids x 500 rounds, < 1 s)
 	for i := 0; i < h.N; i++ {
+		if i%500 == 0 {
+			concurrent(h)
+		}
 		run(genCase(h), "gen")
 	}
 }
